@@ -165,6 +165,11 @@ def run_one(rng, a, o, idx_map, mode, ctx, st):
     sid, oid = ma.ids(), mo.ids()
     idmap = {oid[k]: sid[v] for k, v in idx_map.items()}
     b = clone(a)
+    from vmon.oracle.util import flavour
+    fk = (len(a) * 7 + len(o)) % 10
+    if fk < 5 and len(a) < 5000:
+        # (the structure being extended is modified by design: it is not handed over read-only; the fragment may well be)
+        st.seen("array_flavour", flavour(b, fk if fk != 3 else 0) + "/" + flavour(o, fk + len(idx_map)))
     what = "extend(mode=%s, map=%s)" % (mode, idx_map)
     try:
         if mode == "default":
